@@ -745,3 +745,129 @@ func TestAtomic(t *testing.T) {
 	}
 	fmt.Println("BATCH-DONE")
 }
+
+// ---- remote wrapper under remote faults -------------------------------------------------------------
+
+type flakyRemote struct {
+	mu      sync.Mutex
+	objects map[string][]byte
+	setMode string // "" | "fail-before" | "fail-midway" | "fail-after"
+	getMode string // "" | "truncate" | "error"
+	midway  int
+}
+
+func (f *flakyRemote) TypeName() string { return "flaky" }
+func (f *flakyRemote) Get(ctx context.Context, path, key string) (io.ReadCloser, error) {
+	f.mu.Lock()
+	b, ok := f.objects[path+"/"+key]
+	f.mu.Unlock()
+	if !ok {
+		return nil, os.ErrNotExist
+	}
+	switch f.getMode {
+	case "error":
+		return nil, errInjected
+	case "truncate":
+		return io.NopCloser(&halfReader{r: bytes.NewReader(b), left: len(b) / 2}), nil
+	}
+	return io.NopCloser(bytes.NewReader(b)), nil
+}
+func (f *flakyRemote) Set(ctx context.Context, path, key string, content io.Reader) error {
+	switch f.setMode {
+	case "fail-before":
+		return errInjected
+	case "fail-midway":
+		buf := make([]byte, f.midway)
+		_, _ = io.ReadFull(content, buf)
+		return errInjected
+	}
+	b, err := io.ReadAll(content)
+	if err != nil {
+		return err
+	}
+	if f.setMode == "fail-after" {
+		return errInjected
+	}
+	f.mu.Lock()
+	f.objects[path+"/"+key] = b
+	f.mu.Unlock()
+	return nil
+}
+func (f *flakyRemote) Delete(ctx context.Context, path, key string) error { return nil }
+func (f *flakyRemote) Exists(ctx context.Context, path, key string) (bool, error) {
+	f.mu.Lock()
+	defer f.mu.Unlock()
+	_, ok := f.objects[path+"/"+key]
+	return ok, nil
+}
+
+// TestRemoteFaults drives backends.RemoteWrapper over the real fs backend and a remote that
+// fails before, in the middle of, or after a write, or truncates a read; the local cache
+// directory is left for the offline audit (a blob visible under a digest must have that content).
+func TestRemoteFaults(t *testing.T) {
+	for id := *flagFrom; id < *flagTo; id++ {
+		r := &rnd{s: *flagSeed*65537 + uint64(id)*31 + 9}
+		dir := filepath.Join(*flagDir, fmt.Sprintf("w%d", id))
+		setModes := []string{"", "fail-before", "fail-midway", "fail-midway", "fail-after"}
+		getModes := []string{"", "truncate", "error"}
+		res := map[string]any{"id": id}
+		setMode, getMode := setModes[r.intn(len(setModes))], getModes[r.intn(len(getModes))]
+		res["set_mode"], res["get_mode"] = setMode, getMode
+		fmt.Printf("CASE %d %s\n", id, mustJSON(res))
+		e, err := newEnv(dir)
+		if err != nil {
+			t.Fatal(err)
+		}
+		config.Global.HashAlgorithm = config.HashAlgorithmSHA256
+		res["cache_dir"] = config.Global.GetWorkspaceCacheDirectory()
+		remote := &flakyRemote{objects: map[string][]byte{}, setMode: setMode, getMode: getMode, midway: 1 + r.intn(60000)}
+		w := backends.NewRemoteWrapper(e.backend, remote)
+		cas := caching.NewCas(w)
+		var errs []string
+		// writes of blobs of very different sizes (pipes hand data over in 32 KiB pieces)
+		for k := 0; k < 4; k++ {
+			size := []int{10, 40000, 300000, 1500000}[k]
+			data := bytes.Repeat([]byte{byte('a' + k)}, size)
+			sum := sha256.Sum256(data)
+			digest := hex.EncodeToString(sum[:])
+			if err := cas.Write(e.ctx, digest, plainReader{bytes.NewReader(data)}); err != nil {
+				errs = append(errs, "write: "+err.Error())
+				// a retry after the fault is over must not be skipped because of a bad local blob
+				remote.setMode = ""
+				if err2 := caching.NewCas(w).Write(e.ctx, digest, plainReader{bytes.NewReader(data)}); err2 != nil {
+					errs = append(errs, "retry: "+err2.Error())
+				}
+				remote.setMode = setMode
+			}
+		}
+		// read-through of objects that only exist remotely
+		for k := 0; k < 3; k++ {
+			data := bytes.Repeat([]byte{byte('A' + k)}, []int{100, 70000, 900000}[k])
+			sum := sha256.Sum256(data)
+			digest := hex.EncodeToString(sum[:])
+			remote.mu.Lock()
+			remote.objects["cas/"+digest] = data
+			remote.mu.Unlock()
+			rc, err := cas.Load(e.ctx, digest)
+			if err != nil {
+				errs = append(errs, "load: "+err.Error())
+				continue
+			}
+			got, rerr := io.ReadAll(rc)
+			rc.Close()
+			if rerr == nil && !bytes.Equal(got, data) {
+				errs = append(errs, "WRONG-CONTENT-READ")
+				res["wrong_content_read"] = true
+			}
+		}
+		res["errors"] = len(errs)
+		fmt.Printf("RES %d %s\n", id, mustJSON(res))
+	}
+	fmt.Println("BATCH-DONE")
+}
+
+// plainReader hides WriteTo/Seek so that io.Copy streams in chunks, as it does for the
+// progress-wrapped output files grog uploads.
+type plainReader struct{ r io.Reader }
+
+func (p plainReader) Read(b []byte) (int, error) { return p.r.Read(b) }
